@@ -1742,6 +1742,221 @@ fn u3_ref_wire() {
 // even at unwind 6 with concrete shapes (VecDeque, String clones behind a niche-encoded enum tag).
 // The arm is therefore NOT under contract; DESIGN.md lists it under "out of reach".
 
+// ---------------------------------------------------------------- String family (bounded)
+//@ obligation: U3.String.bin
+//@ props: C01 C03 C04
+//@ fns: serialize_properties[Type::String] decode_prop_chunk[Type::String/VariantType::BinaryString]
+//@ kind: bounded
+//@ bound: column of 2 values: a BinaryString of 2 arbitrary bytes and a String of 1 ASCII character (contents symbolic)
+//@ checks: functional
+//@ covers: 1
+//@ timeout: 1200
+//@ note: every string-like value is a u32 length + bytes, values in sequence; a column read for a property unknown to the database comes back as BinaryString (documented normalisation)
+#[kani::proof]
+#[kani::unwind(6)]
+fn u3_string_bin() {
+    let c: [u8; 3] = kani::any();
+    kani::assume(c[2] < 0x80);
+    let v0 = Variant::BinaryString(BinaryString::from(vec![c[0], c[1]]));
+    let v1 = Variant::String(unsafe { String::from_utf8_unchecked(vec![c[2]]) });
+    let mut cb = newcb();
+    assert!(enc_String(col2(&v0, &v1), &mut cb, &EncShim::empty()).is_ok());
+    let bytes = buffer_of(&cb);
+    let mut s = Spec::new();
+    s.le_u32(2);
+    s.u8(c[0]);
+    s.u8(c[1]);
+    s.le_u32(1);
+    s.u8(c[2]);
+    assert!(s.eq(bytes));
+    let mut shim = shim2();
+    assert!(dec_String_BinaryString(bytes, &TI2, &mut shim).is_ok());
+    assert!(out!(shim, 0, Variant::BinaryString(x) => { let x: &[u8] = x.as_ref(); x.len() == 2 && x[0] == c[0] && x[1] == c[1] }));
+    assert!(out!(shim, 1, Variant::BinaryString(x) => { let x: &[u8] = x.as_ref(); x.len() == 1 && x[0] == c[2] }));
+    assert!(once_each(&shim));
+    kani::cover!(true, "end of harness reached");
+    std::mem::forget(shim);
+    std::mem::forget(cb);
+    std::mem::forget(v0);
+    std::mem::forget(v1);
+}
+
+//@ obligation: U3.String.text
+//@ props: C01 C04
+//@ fns: decode_prop_chunk[Type::String/VariantType::String] decode_prop_chunk[Type::String/VariantType::ContentId]
+//@ kind: bounded
+//@ bound: column of 2 values of 1 ASCII character each (symbolic), wire built by the independent encoder
+//@ checks: functional
+//@ covers: 1
+//@ tier: thorough
+//@ timeout: 1800
+#[kani::proof]
+#[kani::unwind(6)]
+fn u3_string_text() {
+    let c: [u8; 2] = kani::any();
+    kani::assume(c[0] < 0x80 && c[1] < 0x80);
+    let mut s = Spec::new();
+    s.le_u32(1);
+    s.u8(c[0]);
+    s.le_u32(1);
+    s.u8(c[1]);
+    let mut shim_s = shim2();
+    assert!(dec_String_String(&s.buf[..s.len], &TI2, &mut shim_s).is_ok());
+    assert!(out!(shim_s, 0, Variant::String(x) => x.len() == 1 && x.as_bytes()[0] == c[0]));
+    assert!(out!(shim_s, 1, Variant::String(x) => x.len() == 1 && x.as_bytes()[0] == c[1]));
+    let mut shim_c = shim2();
+    assert!(dec_String_ContentId(&s.buf[..s.len], &TI2, &mut shim_c).is_ok());
+    assert!(out!(shim_c, 0, Variant::ContentId(x) => x.as_str().len() == 1 && x.as_str().as_bytes()[0] == c[0]));
+    assert!(once_each(&shim_s) && once_each(&shim_c));
+    kani::cover!(true, "end of harness reached");
+    std::mem::forget(shim_s);
+    std::mem::forget(shim_c);
+}
+
+// ---------------------------------------------------------------- NumberSequence / ColorSequence (bounded)
+//@ obligation: U3.NumberSequence
+//@ props: C01 C03 C04
+//@ fns: serialize_properties[Type::NumberSequence] decode_prop_chunk[Type::NumberSequence/VariantType::NumberSequence]
+//@ kind: bounded
+//@ bound: column of 2 values: a sequence of 2 keypoints and an empty sequence; all floats symbolic
+//@ checks: functional
+//@ covers: 1
+//@ timeout: 1200
+#[kani::proof]
+#[kani::unwind(8)]
+fn u3_numbersequence() {
+    let k0 = NumberSequenceKeypoint::new(f32any(), f32any(), f32any());
+    let k1 = NumberSequenceKeypoint::new(f32any(), f32any(), f32any());
+    let v0 = Variant::NumberSequence(NumberSequence { keypoints: vec![k0, k1] });
+    let v1 = Variant::NumberSequence(NumberSequence { keypoints: Vec::new() });
+    let mut cb = newcb();
+    assert!(enc_NumberSequence(col2(&v0, &v1), &mut cb, &EncShim::empty()).is_ok());
+    let bytes = buffer_of(&cb);
+    // keypoint count, then Time, Value, Envelope per keypoint (little-endian f32)
+    let mut s = Spec::new();
+    s.le_u32(2);
+    for k in [&k0, &k1] {
+        s.le_f32(k.time);
+        s.le_f32(k.value);
+        s.le_f32(k.envelope);
+    }
+    s.le_u32(0);
+    assert!(s.eq(bytes));
+    let mut shim = shim2();
+    assert!(dec_NumberSequence_NumberSequence(bytes, &TI2, &mut shim).is_ok());
+    assert!(out!(shim, 0, Variant::NumberSequence(x) => x.keypoints.len() == 2
+        && feq(x.keypoints[0].time, k0.time) && feq(x.keypoints[0].value, k0.value) && feq(x.keypoints[0].envelope, k0.envelope)
+        && feq(x.keypoints[1].time, k1.time) && feq(x.keypoints[1].value, k1.value) && feq(x.keypoints[1].envelope, k1.envelope)));
+    assert!(out!(shim, 1, Variant::NumberSequence(x) => x.keypoints.is_empty()));
+    assert!(once_each(&shim));
+    kani::cover!(true, "end of harness reached");
+    std::mem::forget(shim);
+    std::mem::forget(cb);
+    std::mem::forget(v0);
+    std::mem::forget(v1);
+}
+
+//@ obligation: U3.ColorSequence
+//@ props: C01 C03 C04
+//@ fns: serialize_properties[Type::ColorSequence] decode_prop_chunk[Type::ColorSequence/VariantType::ColorSequence]
+//@ kind: bounded
+//@ bound: column of 2 values: a sequence of 2 keypoints and a sequence of 1 keypoint; all floats symbolic
+//@ checks: functional
+//@ covers: 1
+//@ timeout: 1200
+//@ note: the envelope slot is written as 0 and ignored on read (documented: serialized, but not used)
+#[kani::proof]
+#[kani::unwind(8)]
+fn u3_colorsequence() {
+    let k0 = ColorSequenceKeypoint::new(f32any(), Color3::new(f32any(), f32any(), f32any()));
+    let k1 = ColorSequenceKeypoint::new(f32any(), Color3::new(f32any(), f32any(), f32any()));
+    let k2 = ColorSequenceKeypoint::new(f32any(), Color3::new(f32any(), f32any(), f32any()));
+    let v0 = Variant::ColorSequence(ColorSequence { keypoints: vec![k0, k1] });
+    let v1 = Variant::ColorSequence(ColorSequence { keypoints: vec![k2] });
+    let mut cb = newcb();
+    assert!(enc_ColorSequence(col2(&v0, &v1), &mut cb, &EncShim::empty()).is_ok());
+    let bytes = buffer_of(&cb);
+    let mut s = Spec::new();
+    s.le_u32(2);
+    for k in [&k0, &k1] {
+        s.le_f32(k.time);
+        s.le_f32(k.color.r);
+        s.le_f32(k.color.g);
+        s.le_f32(k.color.b);
+        s.le_f32(0.0);
+    }
+    s.le_u32(1);
+    s.le_f32(k2.time);
+    s.le_f32(k2.color.r);
+    s.le_f32(k2.color.g);
+    s.le_f32(k2.color.b);
+    s.le_f32(0.0);
+    assert!(s.eq(bytes));
+    let mut shim = shim2();
+    assert!(dec_ColorSequence_ColorSequence(bytes, &TI2, &mut shim).is_ok());
+    assert!(out!(shim, 0, Variant::ColorSequence(x) => x.keypoints.len() == 2
+        && feq(x.keypoints[0].time, k0.time) && feq(x.keypoints[0].color.r, k0.color.r) && feq(x.keypoints[0].color.g, k0.color.g) && feq(x.keypoints[0].color.b, k0.color.b)
+        && feq(x.keypoints[1].time, k1.time) && feq(x.keypoints[1].color.r, k1.color.r) && feq(x.keypoints[1].color.g, k1.color.g) && feq(x.keypoints[1].color.b, k1.color.b)));
+    assert!(out!(shim, 1, Variant::ColorSequence(x) => x.keypoints.len() == 1 && feq(x.keypoints[0].time, k2.time) && feq(x.keypoints[0].color.b, k2.color.b)));
+    assert!(once_each(&shim));
+    kani::cover!(true, "end of harness reached");
+    std::mem::forget(shim);
+    std::mem::forget(cb);
+    std::mem::forget(v0);
+    std::mem::forget(v1);
+}
+
+// ---------------------------------------------------------------- Font (bounded)
+//@ obligation: U3.Font
+//@ props: C01 C03 C04
+//@ fns: serialize_properties[Type::Font] decode_prop_chunk[Type::Font/VariantType::Font]
+//@ kind: bounded
+//@ bound: column of 2 values: family of 1 ASCII character each, every weight/style, cached face id absent / 1 character
+//@ checks: functional
+//@ covers: 1
+//@ timeout: 1200
+//@ note: Family (String), Weight u16 LE, Style u8, CachedFaceId (String, empty = None)
+#[kani::proof]
+#[kani::unwind(8)]
+fn u3_font() {
+    let c: [u8; 3] = kani::any();
+    kani::assume(c[0] < 0x80 && c[1] < 0x80 && c[2] < 0x80);
+    let wn: u16 = kani::any();
+    let sn: u8 = kani::any();
+    if let (Some(weight), Some(style)) = (FontWeight::from_u16(wn), FontStyle::from_u8(sn)) {
+        let fa = Font { family: unsafe { String::from_utf8_unchecked(vec![c[0]]) }, weight, style, cached_face_id: None };
+        let fb = Font { family: unsafe { String::from_utf8_unchecked(vec![c[1]]) }, weight: FontWeight::Regular, style: FontStyle::Normal, cached_face_id: Some(unsafe { String::from_utf8_unchecked(vec![c[2]]) }) };
+        let (v0, v1) = (Variant::Font(fa), Variant::Font(fb));
+        let mut cb = newcb();
+        assert!(enc_Font(col2(&v0, &v1), &mut cb, &EncShim::empty()).is_ok());
+        let bytes = buffer_of(&cb);
+        let mut s = Spec::new();
+        s.le_u32(1);
+        s.u8(c[0]);
+        s.le_u16(wn);
+        s.u8(sn);
+        s.le_u32(0);
+        s.le_u32(1);
+        s.u8(c[1]);
+        s.le_u16(400);
+        s.u8(0);
+        s.le_u32(1);
+        s.u8(c[2]);
+        assert!(s.eq(bytes));
+        let mut shim = shim2();
+        assert!(dec_Font_Font(bytes, &TI2, &mut shim).is_ok());
+        assert!(out!(shim, 0, Variant::Font(x) => x.family.len() == 1 && x.family.as_bytes()[0] == c[0] && x.weight == weight && x.style == style && x.cached_face_id.is_none()));
+        assert!(out!(shim, 1, Variant::Font(x) => x.family.len() == 1 && x.family.as_bytes()[0] == c[1] && x.weight == FontWeight::Regular && x.style == FontStyle::Normal
+            && match &x.cached_face_id { Some(f) => f.len() == 1 && f.as_bytes()[0] == c[2], None => false }));
+        assert!(once_each(&shim));
+        kani::cover!(true, "end of harness reached");
+        std::mem::forget(shim);
+        std::mem::forget(cb);
+        std::mem::forget(v0);
+        std::mem::forget(v1);
+    }
+}
+
 // ---------------------------------------------------------------- add_property (C15)
 //@ obligation: U9.addprop
 //@ props: C15
